@@ -366,7 +366,10 @@ func VerifC02_OverlongString() {
 	n := []int{65536, 65537, 69000}[ndChoice("n", 3)]
 	tag := Tag(ndU16("tag"))
 	var fc *Fcall
-	switch ndChoice("kind", 3) {
+	switch ndChoice("kind", 4) {
+	case 3: // a stat record whose strings are each representable but whose total is not
+		d := Dir{Name: string(vBigBytes("name", 40000)), UID: string(vBigBytes("uid", n-40000))}
+		fc = &Fcall{Type: Rstat, Tag: tag, Message: MessageRstat{Stat: d}}
 	case 0:
 		fc = &Fcall{Type: Rerror, Tag: tag, Message: MessageRerror{Ename: string(vBigBytes("ename", n))}}
 	case 1:
